@@ -1,6 +1,7 @@
 package eng
 
 import (
+	"runtime/pprof"
 	"fmt"
 	"os"
 	"path/filepath"
@@ -11,7 +12,29 @@ import (
 
 var loadPatterns = []string{"./x/...", "./types/...", "./app/..."}
 
+func startWatchdog() {
+	secs := 900
+	if v := os.Getenv("GOVC_WATCHDOG"); v != "" {
+		fmt.Sscanf(v, "%d", &secs)
+	}
+	if pf := os.Getenv("GOVC_CPUPROFILE"); pf != "" {
+		f, _ := os.Create(pf)
+		pprof.StartCPUProfile(f)
+		go func() {
+			time.Sleep(20 * time.Second)
+			pprof.StopCPUProfile()
+			f.Close()
+		}()
+	}
+	go func() {
+		time.Sleep(time.Duration(secs) * time.Second)
+		fmt.Fprintf(os.Stderr, "govc watchdog: no result after %ds; last activity: %s (terms: %d)\n", secs, Progress, TS.n)
+		os.Exit(3)
+	}()
+}
+
 func loadAll(cfg RunConfig) (*Program, float64, error) {
+	startWatchdog()
 	t0 := time.Now()
 	pr, err := LoadProgram(cfg.Repo, loadPatterns)
 	if err != nil {
@@ -51,7 +74,7 @@ func CmdDump(cfg RunConfig) int {
 		for _, o := range r.Obls {
 			fmt.Printf("   %-14s %-10s %6dms  %s\n", o.Status, o.Result.Solver, o.Result.Ms, o.Name)
 			if cfg.Verbose && strings.HasPrefix(o.Status, "failed") {
-				fmt.Println("      ", truncate(o.Result.Output, 1500))
+				fmt.Println("      ", truncate(firstLine(o.Result.Output), 200))
 			}
 		}
 		if cfg.Verbose {
@@ -69,6 +92,15 @@ func CmdDump(cfg RunConfig) int {
 	}
 	for _, u := range res.Unbound {
 		fmt.Println("UNBOUND contract:", u)
+	}
+	if cfg.Verbose {
+		seen := map[string]bool{}
+		for _, m := range MergeNotes {
+			if !seen[m] {
+				seen[m] = true
+				fmt.Println("merge-note:", m)
+			}
+		}
 	}
 	fmt.Printf("solve wall %.1fs, solver cpu %.1fs, smt files in %s\n", nowSec(t0), ssec, dir)
 	_ = sort.Strings
